@@ -15,7 +15,10 @@ case "$spec" in
 esac
 out=$(VERIF_REPO="$wt" VERIF_EVIDENCE_DIR="$wt/evidence" VERIF_REPLAY_DIR="$wt/replays" /verif/check "$prop" "$@" 2>&1)
 rc=$?
-echo "$out" | grep -E "^(VIOLATION|KNOWN-FINDING|HARNESS-ERROR|  class=|C[0-9]+ tier)" | head -20
+echo "$out" | grep -E "^(VIOLATION|KNOWN-FINDING|HARNESS-ERROR|  class=|C[0-9]+ tier)" | cut -c1-300 | head -20
+if ! echo "$out" | grep -q "cogent3 under test: $wt/src/cogent3"; then
+  echo "HARNESS-ERROR the check did not import cogent3 from the scratch worktree"; echo "$out" | tail -5; exit 2
+fi
 case $rc in
   1) echo "DETECTED $spec by $prop"; exit 0 ;;
   0) echo "MISSED $spec by $prop"; exit 1 ;;
